@@ -19,6 +19,7 @@ func init() {
 		Assumptions: []string{"proto.Equal is value equality of messages and false for (nil, non-nil)", "proto.Clone returns a deep copy", "locks identified by access path"},
 		Run:         runC02,
 		Controls: []Control{
+			{Name: "value-set-retries", File: "pkg/resource/value.go", Old: "\t_, newValue, err := GetAndUpdate(", New: "\tvar newValue proto.Message\n\tvar err error\n\tfor attempt := 0; attempt < 3 && (attempt == 0 || err != nil); attempt++ {\n\t_, newValue, err = GetAndUpdate(", More: []Edit{{File: "pkg/resource/value.go", Old: "\t\t\tr.changeTime = changeTime\n\t\t},\n\t)\n", New: "\t\t\tr.changeTime = changeTime\n\t\t},\n\t)\n\t}\n"}}, Expect: "R02.7"},
 			{Name: "drop-equal-guard", File: "pkg/resource/atomic.go", Old: "if !proto.Equal(oldValue, oldValueAgain) {", New: "if false && !proto.Equal(oldValue, oldValueAgain) {", Expect: "R02.1"},
 			{Name: "rlock-before-save", File: "pkg/resource/atomic.go", Old: "\tmu.Lock()\n\tdefer mu.Unlock()", New: "\tmu.RLock()\n\tdefer mu.RUnlock()", Expect: "R02.1"},
 			{Name: "compare-with-new", File: "pkg/resource/atomic.go", Old: "if !proto.Equal(oldValue, oldValueAgain) {", New: "if !proto.Equal(newValue, oldValueAgain) {", Expect: "R02.1"},
@@ -78,6 +79,8 @@ func runC02(c *an.Ctx) {
 	reportGuarded(c, "R02.4", g, func(s string) bool { return s == "pkg/resource.Value" || s == "pkg/resource.Collection" })
 	r025(c)
 	r026(c, "R02.6")
+	r027(c)
+	c.Min("R02.7", 2)
 	c.Min("R02.6", 2)
 	c.Min("R02.1", 5)
 	c.Min("R02.2", 2)
@@ -585,5 +588,58 @@ func r025(c *an.Ctx) {
 	} {
 		why, isBad := f.bad[t.clause]
 		c.Check(!isBad, rule, name+"|"+t.key, f.cl.Pos(), "", t.msg+": "+why)
+	}
+}
+
+// r027: the change function built from the caller's message runs at most once per write call. It is not
+// idempotent (interceptBefore may mutate the caller's message, e.g. `new.X += old.X`), so a retry loop around
+// GetAndUpdate applies such a delta twice while reporting one successful write.
+func r027(c *an.Ctx) {
+	const rule = "R02.7"
+	n := 0
+	for _, t := range [][2]string{{"Value", "set"}, {"Collection", "Update"}} {
+		fn := mustFunc(c, rule, resPkg, t[0], t[1])
+		if fn == nil {
+			continue
+		}
+		name := "(*pkg/resource." + t[0] + ")." + t[1]
+		for _, call := range an.CallsTo(fn, gauName) {
+			n++
+			in := call.(*ssa.Call)
+			// is the call on a cycle of the control flow graph?
+			cyc := false
+			seen := map[*ssa.BasicBlock]bool{}
+			var walk func(b *ssa.BasicBlock)
+			walk = func(b *ssa.BasicBlock) {
+				if b == in.Block() {
+					cyc = true
+					return
+				}
+				if seen[b] {
+					return
+				}
+				seen[b] = true
+				for _, s := range b.Succs {
+					walk(s)
+				}
+			}
+			for _, s := range in.Block().Succs {
+				walk(s)
+			}
+			usesChangeFn := false
+			for _, a := range in.Call.Args {
+				for _, src := range an.Sources(a) {
+					if cl, ok := src.(*ssa.Call); ok && strings.HasSuffix(an.CalleeName(cl), "WriteRequest).changeFn") {
+						usesChangeFn = true
+					}
+				}
+			}
+			c.SawFunc(an.FuncName(fn))
+			c.Check(!(cyc && usesChangeFn) && usesChangeFn, rule, name+"|the caller's change is applied at most once", in.Pos(), "",
+				"GetAndUpdate with the change function of the caller's message sits inside a loop: a retry re-runs interceptBefore on the message the first attempt already modified (the documented delta idiom `new.X += old.X` is then applied twice) while the call reports one write; contention must be reported to the caller (Aborted), not retried here")
+		}
+	}
+	if n < 2 {
+		c.Unk(rule, "pkg/resource|GetAndUpdate callers", 0, fmt.Sprintf("%d GetAndUpdate call sites found in Value.set / Collection.Update, 2 expected", n))
 	}
 }
